@@ -513,6 +513,173 @@ def check_model_only(cases, res):
                                       'real': repr(real)[:600]})
 
 
+
+# --------------------------------------------------------------------------
+# the printer (lean/Genshi/Model/PathPrint.lean) and the tokenizer: printed text vs the real parser
+
+PRINT_ATOMS = ['@n', '@m', '@x:n', '@*', '@x:*', 'b', 'x:b', 'x:*', '*', '$s', '$n', '"abc"', "'a b'", '""', '"it\'s"',
+               "'say \"hi\"'", '1', '2', '02', '1.50', '.5', '0.05', '10', 'true()', 'false()', 'name()', 'local-name()',
+               'namespace-uri()']
+PRINT_FN = [('boolean', 1), ('ceiling', 1), ('floor', 1), ('normalize-space', 1), ('not', 1), ('number', 1),
+            ('round', 1), ('string-length', 1), ('contains', 2), ('starts-with', 2), ('substring-after', 2),
+            ('substring-before', 2), ('substring', 2), ('substring', 3), ('matches', 2), ('translate', 3),
+            ('concat', 1), ('concat', 2), ('concat', 3), ('concat', 4), ('concat', 5)]
+PRINT_OPS = ['or', 'and', '=', '!=', '<', '<=', '>', '>=']
+PRINT_STEPS = ['a', 'child::a', '//a', 'descendant::b', './/*', 'a/b', 'text()', 'processing-instruction("php")',
+               "processing-instruction('py')", 'processing-instruction()', 'comment()', 'node()', 'x:a', 'x:*', '*',
+               'self::a', 'descendant-or-self::a', '.', 'a//b', './a', 'attribute::n', '@n']
+
+
+def rand_print_expr(rng, depth):
+    """predicate expressions that stress the printer: operators of every level nested to the left and to the right,
+    with and without (redundant or needed) parentheses, calls of every arity, literals of both quote kinds, numbers"""
+    r = rng.random()
+    if depth <= 0 or r < 0.25:
+        return rng.choice(PRINT_ATOMS)
+    if r < 0.7:
+        op = rng.choice(PRINT_OPS)
+        l, rr = rand_print_expr(rng, depth - 1), rand_print_expr(rng, depth - 1)
+        if rng.random() < 0.3:
+            l = '(%s)' % l
+        if rng.random() < 0.3:
+            rr = '(%s)' % rr
+        sp = rng.choice([' ', ' ', '  ']) if op in ('or', 'and') else rng.choice(['', ' '])
+        return '%s%s%s%s%s' % (l, sp, op, sp, rr)
+    if r < 0.78:
+        return '(%s)' % rand_print_expr(rng, depth - 1)
+    f, n = rng.choice(PRINT_FN)
+    return '%s(%s)' % (f, rng.choice([',', ', ', ' , ']).join(rand_print_expr(rng, depth - 1) for _ in range(n)))
+
+
+def rand_print_text(rng):
+    r = rng.random()
+    if r < 0.35:
+        return G.rand_path(rng, rng.choice([G.FULL, G.FULL, G.STRUCT, G.SIMPLE, G.TYPED]))
+    ops = []
+    for _ in range(rng.choice([1, 1, 1, 2, 3])):
+        st = rng.choice(PRINT_STEPS)
+        if not st.endswith('n') or st in ('a',):
+            for _ in range(rng.choice([1, 1, 2, 0])):
+                st += '[%s]' % rand_print_expr(rng, rng.choice([1, 2, 2, 3]))
+        if rng.random() < 0.3:
+            st += rng.choice(['/b', '//b[1]', '/@n', '/text()', '/x:*[@n]'])
+        ops.append(st)
+    return rng.choice(['|', ' | ']).join(ops)
+
+
+MUT_CHARS = '[]()@/|,=<>!$:.*"\' \t\nab1-'
+
+
+def mutate_text(rng, t):
+    k = rng.randrange(7)
+    if not t:
+        return rng.choice(MUT_CHARS)
+    i = rng.randrange(len(t))
+    if k == 0:
+        return t[:i] + t[i + 1:]
+    if k == 1:
+        return t[:i] + rng.choice(MUT_CHARS) + t[i:]
+    if k == 2:
+        return t[:i] + t[i] + t[i:]
+    if k == 3 and i + 1 < len(t):
+        return t[:i] + t[i + 1] + t[i] + t[i + 2:]
+    if k == 4:
+        return t.replace(' ', '')
+    if k == 5:
+        j = t.find(' ', i)
+        return t if j < 0 else t[:j] + t[j + 1:]
+    return t[:i] + rng.choice(MUT_CHARS) + t[i + 1:]
+
+
+def real_tokens(text):
+    from genshi import path as P
+    try:
+        return list(P.PathParser(text).tokens)
+    except Exception as e:  # noqa
+        return [Atom('err'), Atom(exc_name(e))]
+
+
+def check_print(texts, rng, res):
+    """stream `print`: the model parses `text`, prints the AST (`Print.printPaths`), and the REAL parser must read the
+    printed text as the AST it reads from `text` (= the model's); `print-tokens`: the real tokenizer on the printed
+    text gives the printer's token list; `print-tokens-mutated` / `print-parse-mutated`: tokenizer and parser, model
+    vs code, on damaged printed texts."""
+    lines = [proto.line(Atom('C05'), Atom('print'), t) for t in texts]
+    answers = proto.run_lines(lines)
+    mlines, mplan = [], []
+    for text, ans in zip(texts, answers):
+        res.evaluations += 1
+        case = {'path': text, 'stream': 'print'}
+        if ans == 'unmodelled':
+            res.count('print:unmodelled')
+            continue
+        try:
+            m = proto.dec(ans)
+        except Exception:  # noqa
+            res.disagreements.append({'stream': 'print', 'case': case, 'model': ans[:300], 'real': 'undecodable'})
+            continue
+        if m[0] != 'ok':
+            res.count('print:' + str(m[0]))
+            if m[0] == 'unprintable':
+                for mark, why in (('text()', 'node-type'), ('comment()', 'node-type'), ('node()', 'node-type'),
+                                  ('processing-instruction', 'node-type'), ('[.', 'dot'), ('-', 'minus'),
+                                  ('matches(', 'matches')):
+                    if mark in text:
+                        res.count('print:unprintable:' + why)
+                        break
+                else:
+                    res.count('print:unprintable:other')
+            continue
+        printed, toks, back, same = m[1], m[2], m[3], m[4]
+        case['printed'] = printed
+        res.count('print:ok')
+        res.streams['print'] = res.streams.get('print', 0) + 1
+        if '( ' in printed:
+            res.count('print:has-paren')
+        res.count('print:preds=%d' % min(printed.count('['), 4))
+        for mark, name in (('|', 'union'), ('"', 'string'), ("'", 'string'), (' or ', 'or'), (' and ', 'and'),
+                           (' , ', 'multi-arg-call')):
+            if mark in printed:
+                res.count('print:' + name)
+        if any(ch.isdigit() for ch in printed):
+            res.count('print:number')
+        real_orig, real_back = real_parse(text), real_parse(printed)
+        if str(same) != 'T':
+            res.disagreements.append({'stream': 'print', 'case': case, 'model': 'round trip in the model: ' + repr(back)[:400],
+                                      'real': repr(real_orig)[:400]})
+        elif real_back != real_orig or real_back != back:
+            res.disagreements.append({'stream': 'print', 'case': case, 'model': repr(back)[:500],
+                                      'real': repr(real_back)[:300] + ' <- printed | original -> ' + repr(real_orig)[:300]})
+        else:
+            res.nontrivial.add('print|' + path_shape(printed))
+        rt = real_tokens(printed)
+        res.streams['print-tokens'] = res.streams.get('print-tokens', 0) + 1
+        if rt != toks:
+            res.disagreements.append({'stream': 'print-tokens', 'case': case, 'model': repr(toks)[:500], 'real': repr(rt)[:500]})
+        for _ in range(2):
+            mt = mutate_text(rng, printed)
+            if any(ord(c) > 127 for c in mt):
+                continue
+            mlines.append(proto.line(Atom('C05'), Atom('tokens'), mt))
+            mplan.append(('print-tokens-mutated', mt, real_tokens(mt)))
+            mlines.append(proto.line(Atom('C05'), Atom('parse'), mt))
+            mplan.append(('print-parse-mutated', mt, real_parse(mt)))
+    for (name, mt, real), ans in zip(mplan, proto.run_lines(mlines)):
+        if ans in ('unmodelled', 'unsupported'):
+            res.count('model:%s:%s' % (ans, name))
+            continue
+        try:
+            model = proto.dec(ans)
+        except Exception:  # noqa
+            model = Atom(ans)
+        res.streams[name] = res.streams.get(name, 0) + 1
+        if name == 'print-parse-mutated' and real[0] == 'err':
+            res.count('print-mutated-error:' + str(real[1]))
+        if model != real:
+            res.disagreements.append({'stream': name, 'case': {'path': mt, 'stream': name}, 'model': repr(model)[:500],
+                                      'real': repr(real)[:500]})
+
+
 def shard(arg):
     import random
     seed, idx, n = arg
@@ -529,6 +696,8 @@ def shard(arg):
         extra.append({'doc': G.rand_doc(rng, 4), 'path': rng.choice([t[:cut], t[cut:], t[:cut] + rng.choice('[]()@/|,=<>!$:.*') + t[cut:]])})
     check_model_only(extra, res)
     check_cases(cases, res)
+    prng = random.Random('%s/%s/C05/print' % (seed, idx))
+    check_print([rand_print_text(prng) for _ in range(max(40, n // 6))], prng, res)
     res.samples = [{'doc': G.doc_xml(c['doc']), 'path': c['path']} for c in cases[:2] if 'doc' in c]
     return res
 
@@ -646,6 +815,8 @@ def replay(ctx, case):
     if isinstance(case.get('doc'), str):
         raise ValueError('doc must be a tree')
     from harness.framework import canon
+    if 'doc' not in case and case.get('kind') != 'reject':
+        return None       # a case of a correspondence-only stream (print, tokens): no oracle to replay
     listed = canon(case) in _listed_inputs()
     if not listed and 'doc' in case and not doc_valid(case['doc']):
         return None
